@@ -44,6 +44,74 @@ def oracle(req, impl, build):
     return None
 
 
+def wedge_boundary(binary, build, tier):
+    """the acceptance region of the wedge IS the region under the density: for every layer and 16 abscissae across its wedge a candidate
+    (x, y) is scripted with y a hair above the density (must be rejected: the next, rectangle word gives the sample) and a hair below (must be
+    accepted: x is the sample).  x and y are computed here from the published ZIGNOR candidate construction and the tables of the current
+    source, in double precision; the margins (3e-10 and 1e-7 relative, against 1e-15 of arithmetic error) leave no doubt on which side of
+    exp(-x^2/2) / exp(-x) the candidate lies.  A shortcut that accepts by anything else than the density (a chord, a cheaper bound) differs
+    from it somewhere along some wedge."""
+    import math, struct
+    from . import gen_float as G
+    from .float_oracles import samples as fsamples
+    T = G.tables()
+    f64 = lambda b: struct.unpack("<d", struct.pack("<Q", b))[0]
+    reqs, meta = [], []
+    for kind in ("norm", "exp"):
+        X, F = T["ZIG_NORM_X" if kind == "norm" else "ZIG_EXP_X"], T["ZIG_NORM_F" if kind == "norm" else "ZIG_EXP_F"]
+        pdf = (lambda x: math.exp(-x * x / 2)) if kind == "norm" else (lambda x: math.exp(-x))
+        for i in range(1, 256):
+            for t in range(16):
+                ax = X[i + 1] + (X[i] - X[i + 1]) * (0.02 + 0.96 * t / 15.0)
+                sign = -1 if (kind == "norm" and (i + t) % 2) else 1
+                # the first word: layer i, mantissa so that u * X[i] = x
+                if kind == "norm":
+                    mant = int((sign * ax / X[i] + 3.0 - 2.0) / 2.0 * (1 << 52))
+                    w1 = G.zig_bits(i, mant, 0)
+                    u = f64((w1 >> 12) | (1024 << 52)) - 3.0
+                else:
+                    mant = int((ax / X[i]) * (1 << 52))
+                    w1 = G.zig_bits(i, mant, 0)
+                    u = f64((w1 >> 12) | (1023 << 52)) - (1.0 - 2.0 ** -53)
+                x = u * X[i]
+                tx = abs(x)
+                if not (X[i + 1] <= tx < X[i]):
+                    continue
+                d = pdf(x)
+                for rel in (3e-10, -3e-10, 1e-7, -1e-7):
+                    ustar = (d * (1 + rel) - F[i + 1]) / (F[i] - F[i + 1])
+                    if not (2.0 ** -60 < ustar < 1.0):
+                        continue
+                    clz = int(math.floor(-math.log2(ustar)))
+                    clz = clz if 2.0 ** (-1 - clz) <= ustar < 2.0 ** -clz else clz + (1 if ustar < 2.0 ** (-1 - clz) else -1)
+                    m = int((ustar * 2.0 ** (1 + clz) - 1.0) * (1 << 52))
+                    if not (0 <= m < (1 << 52) and 0 <= clz < 60):
+                        continue
+                    A, B = 1 << (63 - clz), m << 12
+                    uu = 2.0 ** (-1 - clz) * (1 + m / float(1 << 52))
+                    y = F[i + 1] + (F[i] - F[i + 1]) * uu
+                    if abs(y / d - 1 - rel) > 1e-12 + abs(rel) * 1e-3:
+                        continue
+                    # a rectangle word of layer 200 with a recognisable abscissa ends the request when the candidate is rejected
+                    w2 = G.zig_bits(200, (3 << 50) + 12345 if kind == "norm" else (1 << 50) + 12345, 0)
+                    reqs.append("zig kind=%s w=64 n=1 words=%d,%d,%d,%d,0,0" % (kind, w1, A, B, w2))
+                    meta.append((kind, i, x, y, d, rel, struct.unpack("<Q", struct.pack("<d", x))[0]))
+    rc, res, err = C.run_lines(binary, ["run"], reqs)
+    for q, o, (kind, i, x, y, d, rel, xb) in zip(reqs, res, meta):
+        f = [t for t in o.split() if t.startswith("ok:")]
+        if not f:
+            continue
+        bits, used = f[0].split(":")[1], f[0].split(":")[2]
+        accepted = bits == str(xb) and used == "3"
+        if accepted and rel > 0:
+            yield {"kind": "oracle", "build": build, "request": q, "impl": o, "model": "candidate x = %r, y = %r, density(x) = %r" % (x, y, d),
+                   "oracle": "%s, layer %d: the candidate (x = %r, y = density(x) * (1 + %g)) lies ABOVE the density and was returned as the sample: the accepted region is not the region under the density" % ("StandardNormal" if kind == "norm" else "Exp1", i, x, rel)}
+        elif not accepted and rel < 0 and bits != str(xb):
+            yield {"kind": "oracle", "build": build, "request": q, "impl": o, "model": "candidate x = %r, y = %r, density(x) = %r" % (x, y, d),
+                   "oracle": "%s, layer %d: the candidate (x = %r, y = density(x) * (1 - %g)) lies BELOW the density and was rejected: the accepted region is not the region under the density" % ("StandardNormal" if kind == "norm" else "Exp1", i, x, -rel)}
+    yield {"kind": "count", "what": "wedge-acceptance-boundary-candidates", "n": len(reqs)}
+
+
 def extra(binary, build, tier, rng):
     """goodness of fit under real generators (violation search; the law itself is not proved): 64 equal-probability cells plus tail cells of
     halving probability down to an expected count of 2500 (so the wedges, the base strip and the tails beyond R each get their own cells);
@@ -56,6 +124,7 @@ def extra(binary, build, tier, rng):
         yield {"kind": "oracle", "build": build, "request": "table entry %s[%d] of src/distr/ziggurat_tables.rs" % (tab, i), "impl": lit, "model": dens,
                "oracle": "%s[%d] = %s is not the density %s = %s at the tabulated abscissa (absolute difference %s)" % (tab, i, lit, pdf, dens, err)}
     yield {"kind": "count", "what": "table-entries-checked", "n": n_checked}
+    yield from wedge_boundary(binary, build, tier)
     N = 100_000_000 if tier == "quick" else 1_500_000_000
     M = 40_000_000 if tier == "quick" else 300_000_000
     gens = ["xoshiro", "splitmix", "wyrand", "chacha8"]
